@@ -658,7 +658,7 @@ impl InstrFormat for MsgHooks {
             Err(e) => return Err(e),
         };
 
-        let opcode = f.read_i8()?;
+        let opcode = f.read_u8()?;  // (written as a u8: opcodes 128..=255 must not come back sign-extended)
         let argsize = f.read_u8()?;
         let args_blob = f.read_byte_vec(argsize as usize)?;
         let instr = RawInstr { time: time.into(), opcode: opcode as _, param_mask: 0, args_blob, ..RawInstr::DEFAULTS };
